@@ -319,6 +319,25 @@ pub fn check(c: &C16Case) -> CaseOutcome
                         }
                         if removed
                         {
+                            // the developer may also have edited the configuration file after the lock was written:
+                            // make Breadlog.yaml 90 s newer than Breadlog.lock for half of the points
+                            if c.variety % 2 == 0
+                            {
+                                if let Ok(md) = std::fs::metadata(proj.join("Breadlog.lock"))
+                                {
+                                    use std::os::unix::fs::MetadataExt;
+                                    let t = libc::timespec {
+                                        tv_sec: md.mtime() + 90,
+                                        tv_nsec: 0,
+                                    };
+                                    let times = [t, t];
+                                    let cpath = std::ffi::CString::new(proj.join("Breadlog.yaml").to_string_lossy().as_bytes()).unwrap();
+                                    unsafe {
+                                        libc::utimensat(libc::AT_FDCWD, cpath.as_ptr(), times.as_ptr(), 0);
+                                    }
+                                    o.class("config-newer-than-lock-before-second-run");
+                                }
+                            }
                             let before2 = read_files(&proj);
                             let r2 = simple_run(&sb, false);
                             o.evals += 1;
@@ -439,7 +458,7 @@ pub fn run(env: &Env, rec: &Recorder) -> (String, Vec<&'static str>)
     enumerate(env, rec, "matrix", m, &check);
     rec.set_exhaustive(true);
     (
-        "the complete matrix use_cache {omitted,true,false} x structured {omitted,true,false} x extensions {omitted,[rs],[rsx]} x lock {absent, valid ahead of the tree, corrupt text, empty, wrong type, negative, > u32} x mode {edit,check} x tree {references missing, none missing}, plus 7 error points (config missing, invalid YAML, wrong shape, source_dir key absent, source dir missing, source dir a file, nothing in scope) x mode x lock x use_cache; small trees vary with the point (thorough: 20 variants per point). Oracle (reference model of the guide): disabled cache => lock untouched and IDs equal to the lock-absent baseline; omitted == true: inserting edit writes a parsable lock ahead of its IDs and a later run (after deleting the highest statement and adding one) starts from the lock; unparsable lock => IDs equal to the lock-absent baseline and lock rewritten; structured/extension defaults; every error point => exit != 0 and strict snapshot equality. Non-trivial = any point other than all-explicit defaults with the lock absent".to_string(),
+        "the complete matrix use_cache {omitted,true,false} x structured {omitted,true,false} x extensions {omitted,[rs],[rsx]} x lock {absent, valid ahead of the tree, corrupt text, empty, wrong type, negative, > u32} x mode {edit,check} x tree {references missing, none missing}, plus 7 error points (config missing, invalid YAML, wrong shape, source_dir key absent, source dir missing, source dir a file, nothing in scope) x mode x lock x use_cache; small trees vary with the point (thorough: 20 variants per point). Oracle (reference model of the guide): disabled cache => lock untouched and IDs equal to the lock-absent baseline; omitted == true: inserting edit writes a parsable lock ahead of its IDs and a later run (after deleting the highest statement and adding one; for half of the points also after the configuration file got a newer timestamp than the lock) starts from the lock; unparsable lock => IDs equal to the lock-absent baseline and lock rewritten; structured/extension defaults; every error point => exit != 0 and strict snapshot equality. Non-trivial = any point other than all-explicit defaults with the lock absent".to_string(),
         vec!["only unambiguous invalid configurations are asserted; unknown extra keys and an omitted rust stanza are not asserted either way", "exhaustive=true: every point of the stated matrix was visited"],
     )
 }
